@@ -7,7 +7,7 @@
 //   scen <prim> <init> <sec> <nsec> <quantum_ns> <spur> <eintr> [F:<n>] T:<ret>:<op>,<op>,... T:<ret>:...   -> ok <threads>
 //        prim = mtx | sem | sig | mon | thr ; init = initial count (sem) / initially set (sig)
 //        ops  = lock try-<skip> unlock | signal wait twait-<ms> trywait | set reset wait twait-<ms> |
-//               lock try-<skip> unlock wait twait-<ms> set | start-<j> mstart-<j> (member-function overload) join-<j> dtor-<j> (~Thread) | destroy (sig: delete the Signal)
+//               lock try-<skip> unlock wait twait-<ms> set | start-<j> mstart-<j> (member-function overload) join-<j> dtor-<j> (~Thread) | destroy (sig, mon: delete the object)
 //        try-<skip>: on failure the next <skip> ops of the thread are skipped
 //   run <t.a>,<t.a>,...    (or `run -`)  explicit schedule prefix, default policy afterwards
 //        -> init:<events> <t.a>/<candidates>:<events> ... | <verdict>
@@ -114,7 +114,9 @@ static void runProg(int t)
       thr[o.arg]->~Thread();
       new(thr[o.arg]) Thread;
       sched_event("%d=v", k); break;
-    case K_DESTROY: delete sig; sig = 0; sched_event("%d=v", k); break;   // ~Signal: the caller asserts that nobody uses it any more
+    case K_DESTROY:   // ~Signal / ~Monitor: the caller asserts that nobody uses the object any more
+      if(prim == P_SIG) { delete sig; sig = 0; } else { delete mon; mon = 0; }
+      sched_event("%d=v", k); break;
     case K_MSTART:   // template <class X> bool Thread::start(X& obj, uint (X::*ptr)())
     {
       sched_set_next_tid((int)o.arg);
@@ -156,7 +158,7 @@ static bool parseOp(char* s, Op& o)
   else if(!strcmp(s, "trywait") && !dash && se) o.k = K_TRYWAIT;
   else if(!strcmp(s, "set") && !dash && (si || mo)) o.k = K_SET;
   else if(!strcmp(s, "reset") && !dash && si) o.k = K_RESET;
-  else if(!strcmp(s, "destroy") && !dash && si) o.k = K_DESTROY;
+  else if(!strcmp(s, "destroy") && !dash && (si || mo)) o.k = K_DESTROY;
   else if(!strcmp(s, "start") && dash && arg > 0 && arg < SCHED_MAXT) o.k = K_START;
   else if(!strcmp(s, "mstart") && dash && arg > 0 && arg < SCHED_MAXT) o.k = K_MSTART;
   else if(!strcmp(s, "dtor") && dash && arg > 0 && arg < SCHED_MAXT) o.k = K_DTOR;
